@@ -78,6 +78,12 @@ Proof.
   unfold keys, project_row; intros. rewrite map_map; cbn [fst]. reflexivity.
 Qed.
 
+Lemma keys_xcols : forall t ev h x, keys (xcols t ev h x) = xnames t ev h.
+Proof.
+  intros t ev h x. unfold xcols, xnames. rewrite !keys_app.
+  destruct ev, (h_path h); reflexivity.
+Qed.
+
 (** ** evaluation only looks at the variables [collect_variables] reports *)
 Lemma eval_ext : forall G e r1 r2,
   (forall v, In v (expr_vars e) -> lookup v r1 = lookup v r2) -> eval G e r1 = eval G e r2.
@@ -137,7 +143,7 @@ Qed.
 Lemma keys_sem : forall G p, uniform p = true -> forall r, In r (sem G p) -> keys r = schema p.
 Proof.
   intros G p; induction p as
-    [|x l|x l inp IH|f t ev d ty inp IH|e inp IH|items inp IH|items dd inp IH|k cs pl IHl pr IHr
+    [|x l|x l inp IH|f t ev d ty h inp IH|e inp IH|items inp IH|items dd inp IH|k cs pl IHl pr IHr
      |pl IHl pr IHr|gs ags inp IH|ks inp IH|n inp IH|n inp IH|inp IH|a IHa b IHb];
     cbn [uniform sem schema]; intros U r Hr.
   - destruct Hr.
@@ -146,8 +152,7 @@ Proof.
     rewrite keys_app, (IH U _ H0). reflexivity.
   - apply in_flat_map in Hr as (r0 & H0 & Hr). unfold expand_row in Hr.
     destruct (lookup f r0) as [[| | | |s|]|]; try destruct Hr.
-    apply in_map_iff in Hr as (et & <- & _). rewrite !keys_app, (IH U _ H0).
-    destruct ev; reflexivity.
+    apply in_map_iff in Hr as (et & <- & _). rewrite keys_app, (IH U _ H0), keys_xcols. reflexivity.
   - apply filter_In in Hr as [Hr _]. auto.
   - apply in_map_iff in Hr as (r0 & <- & _). apply keys_project_row.
   - apply in_map_iff in Hr as (r0 & <- & _). apply keys_project_row.
